@@ -230,6 +230,9 @@ class _Timeout(Exception):
     pass
 
 
+PENDING = []    # violations seen while computing reference results; drained by oracle() / replay()
+
+
 def _guarded(fn, seconds=5.0):
     """Run fn() in the main thread with a guard (get_last_an_time may not terminate on exotic sets: C11's matter).
     The budget is CPU time of this process, so a loaded machine cannot turn a slow call into a 'hang'; 20x the budget
@@ -273,9 +276,12 @@ class Sat:
         self.branch = None      # 'e': an_time := tle.epoch (epoch at the node); 'n': an_time := get_last_an_time(epoch)
 
     def fresh(self, q):
-        """(fingerprint, rendering) of q on a FRESH object, single-threaded; None when it does not terminate in time."""
+        """(fingerprint, rendering) of q on a FRESH object, single-threaded; None when it does not terminate in time.
+        These reference calls are the first queries of a process, so a once-only change of a module-level table (a
+        lazily filled cache, a registry entry) happens here: module state is compared around them too."""
         k = qkey(q)
         if k not in self.refs:
+            m0 = module_state()
             try:
                 def run():
                     o = new_orbital(self.tle)
@@ -284,6 +290,10 @@ class Sat:
                 self.refs[k] = (fp(r), short(r))
             except _Timeout:
                 self.refs[k] = None
+            m1 = module_state()
+            if m1 != m0:
+                PENDING.append(("module_state_modified", {"kind": "history", "tle": list(self.tle), "hist": [q], "index": 0},
+                                "changed: " + ", ".join(mod_diff(m0, m1)), "module tables unchanged", q["m"]))
         return self.refs[k]
 
     def canon(self):
@@ -884,7 +894,7 @@ def correspond(ctx):
     scheduler; sequential histories) must be the model's trace when replayed in the observed thread order; every stored or
     loaded value must be the canonical one."""
     drv = ctx.driver()
-    budget = Budget(ctx, 40 if ctx.tier == "quick" else 300)
+    budget = Budget(ctx, 25 if ctx.tier == "quick" else 240)
     sats = gen_sats(ctx, ctx.size(2, 6))
     lines, expects, cases = [], [], []
 
@@ -927,12 +937,16 @@ def oracle(ctx):
     """The property on the implementation, from the statement alone (no model, no instrumentation of the object)."""
     scale = 4 if ctx.intensified else 1
     quick = ctx.tier == "quick"
-    budget = Budget(ctx, (45 if not ctx.intensified else 150) if quick else 480)
+    budget = Budget(ctx, (25 if not ctx.intensified else 50) if quick else 300)
     sats = gen_sats(ctx, ctx.size(3, 10))
 
     def viol(kind, case, observed, required, site):
         ctx.violation(kind, case, observed, required, site="Orbital." + site)
 
+    def drain():
+        while PENDING:
+            viol(*PENDING.pop(0))
+    drain()
     # (1) histories
     for sat in sats:
         pool = screen(sat, gen_pool(ctx.rng))
@@ -945,7 +959,7 @@ def oracle(ctx):
             ctx.bump("history_length", len(hist))
             if len(ctx.violations) > 20:
                 return
-    budget = Budget(ctx, (35 if not ctx.intensified else 150) if quick else 420)
+    budget = Budget(ctx, (30 if not ctx.intensified else 60) if quick else 420)
 
     # (2) schedules
     def judge(sat, queries, plan, r, warm):
@@ -955,6 +969,7 @@ def oracle(ctx):
     concurrency(ctx, sats[:ctx.size(2, 6)], judge, spy=False, mode="full", budget=budget, scale=scale)
     for sat in sats[:2]:
         free_running(ctx, sat, viol, ctx.size(10, 200), budget)
+    drain()
     m = module_state()
     ctx.sample({"tles": [s.tle[0][2:7] for s in sats], "module_level_values_hashed": len(m)})
 
@@ -1022,6 +1037,9 @@ def _replay_one(inp, found, corr):
             sys.setswitchinterval(old)
     else:
         print("unknown kind of case:", inp.get("kind"))
+    while PENDING:
+        k, _c, o, rq, _s = PENDING.pop(0)
+        found.append((k, o, rq))
 
 
 def replay(ctx, case):
